@@ -335,6 +335,30 @@ Proof.
   apply inside_true; unfold stmt_index; lia.
 Qed.
 
+(* ... whatever `token_before` is: the `else` proposals, or the answer of s' *)
+Theorem nested_behind_any i tprev last line col :
+  has_real b1 = true \/ is_emp s = false ->
+  i < len (fl_stmt s') ->
+  nth_error toks (stmt_index + i) = Some tprev -> get_insertion_index line col t = te tprev ->
+  ((ts tprev + 1 < te tprev)%N /\ last = tprev \/
+   (ts tprev + 1 = te tprev)%N /\ nth_error toks (stmt_index + i - 1) = Some last) ->
+  exists pe, lookup G x = Some (GProcE pe) /\ map fst (pe_local pe) = aparams_names ps ++ map v_x vs /\
+    (propose d line col = ROk (render (Some (pe_local pe)) G AElse) \/
+     exists pi, propose d line col =
+       ROk (render (Some (pe_local pe)) G (st_spec s' stmt_index (stmt_index + i) (stmt_index + i) (tk last) pi))).
+Proof.
+  intros Hreal Hi Hp Hc Hlast. pose proof nested_room as Hroom.
+  assert (Hh : 1 <= len (proc_head c1 c2 x c3 ps c4 c5)) by (unfold proc_head; leneq).
+  destruct (propose_procedure_behind l1 c1 c2 x c3 ps c4 c5 vs _ c6 l2 Hds (stmt_index + i) tprev last line col
+              ltac:(unfold stmt_index; lia) ltac:(lia) Hp Hc) as [pe [Hlk [Hnames Hpr]]].
+  { destruct Hlast as [H|[H1 H2]]; [left; exact H | right]. split; [exact H1|]. split; [unfold stmt_index; lia | exact H2]. }
+  exists pe. split; [exact Hlk|]. split; [exact Hnames|]. rewrite Hpr.
+  destruct (proc_spec_nested_any (len (flat_map fl_decl l1)) c1 c2 x c3 ps c4 c5 vs b1 s b2 c6 g s' (stmt_index + i) (stmt_index + i) (tk last)
+              Hn Hreal ltac:(lia) ltac:(apply inside_true; unfold stmt_index; lia)) as [E | [pi E]].
+  - left. now rewrite E.
+  - right. exists pi. now rewrite E.
+Qed.
+
 (* both, for a token of two characters or more *)
 Theorem nested_white i tprev tnext line col :
   has_real b1 = true \/ is_emp s = false ->
